@@ -410,8 +410,7 @@ example : TxsOk (fun op => if op.tx = 1 then .live none else .unknown) (fun _ =>
 /-- an output whose capacity covers its occupied capacity, both computed with the code's checked
 arithmetic (`Capacity::bytes`, `safe_add`; 8 bytes for the capacity field + data + lock (args + 33) +
 type (args + 33, if any), at 10^8 shannons per byte) -/
-def OutputOk (o : Output) : Prop :=
-  ∃ dc occ, capBytes o.dataLen = some dc ∧ occupied o dc = some occ ∧ occ ≤ o.capacity
+def OutputOk (o : Output) : Prop := lackOfCapacity o = some false
 
 /-- **capacity_ok_iff_partial.** `CapacityVerifier` accepts iff (cellbase / DAO-withdraw exemption,
 or both sums fit u64 and outputs ≤ inputs) and every output's capacity covers its occupied
@@ -446,33 +445,9 @@ theorem capacity_ok_iff_partial (exempt : Bool) (ins : List Nat) (outs : List Ou
       intro i
       rw [checkOutputs]
       simp only [List.mem_cons, forall_eq_or_imp, OutputOk]
-      cases hc : capBytes o.dataLen with
-      | none =>
-        dsimp only
-        constructor
-        · intro h; cases h
-        · rintro ⟨⟨dc', occ', h1, _⟩, _⟩; cases h1
-      | some dc =>
-        dsimp only
-        cases ho : occupied o dc with
-        | none =>
-          dsimp only
-          constructor
-          · intro h; cases h
-          · rintro ⟨⟨dc', occ', h1, h2, _⟩, _⟩
-            cases h1; rw [ho] at h2; cases h2
-        | some occ =>
-          dsimp only
-          by_cases hcap : occ > o.capacity
-          · simp only [hcap, if_true]
-            constructor
-            · intro h; cases h
-            · rintro ⟨⟨dc', occ', h1, h2, h3⟩, _⟩
-              cases h1; rw [ho] at h2; cases h2; omega
-          · simp only [hcap, if_false, ih]
-            constructor
-            · intro h; exact ⟨⟨dc, occ, rfl, ho, by omega⟩, h⟩
-            · intro h; exact h.2
+      cases hc : lackOfCapacity o with
+      | none => simp
+      | some b => cases b <;> simp [ih, OutputOk]
   unfold capacityVerify
   by_cases he : exempt = true
   · simp [he, hout]
@@ -501,7 +476,7 @@ theorem capacity_ok_iff_partial (exempt : Bool) (ins : List Nat) (outs : List Ou
       · intro h; exact h.elim
 
 example : occupied ⟨0, 20, none, 0⟩ 0 = some ((8 + 0 + 20 + 33) * 100000000) ∧
-    occupied ⟨0, 20, some 32, 700000000⟩ 700000000 = some ((8 + 7 + 20 + 33 + 32 + 33) * 100000000) := by decide
+    occupied ⟨0, 20, some 32, 7⟩ 700000000 = some ((8 + 7 + 20 + 33 + 32 + 33) * 100000000) := by decide
 
 example : capacityVerify false [6100000000] [⟨6100000000, 20, none, 0⟩] = .ok ∧
     capacityVerify false [6100000000] [⟨6099999999, 20, none, 0⟩] = .insufficient 0 ∧
